@@ -369,15 +369,16 @@ func c06Judge(covert string, cfg c06Cfg, result string, served []c06Query) (v c0
 			perKey[q.Name+"|"+q.Type]++
 			for _, s := range q.Served {
 				if a, err := netip.ParseAddr(s); err == nil {
+					as := []netip.Addr{c06Plain(a)}
 					if a == netip.IPv6Unspecified() {
-						// package net treats a lone "::" answer as "::, else 0.0.0.0" (golang.org/issue/18806):
+						// package net turns a lone "::" answer into "::, else 0.0.0.0" (golang.org/issue/18806):
 						// both are the unspecified address, so 0.0.0.0 counts as answered too.
-						first = append(first, netip.IPv4Unspecified())
+						as = append(as, netip.IPv4Unspecified())
 					}
 					if q.Index == 0 {
-						first = append(first, c06Plain(a))
+						first = append(first, as...)
 					} else {
-						later = append(later, c06Plain(a))
+						later = append(later, as...)
 					}
 				}
 			}
